@@ -38,6 +38,7 @@ fn val_name(v: Valuation) -> &'static str {
         Valuation::Generic => "generic",
         Valuation::Tiny => "tiny",
         Valuation::Dup => "dup",
+        Valuation::Sub => "sub",
     }
 }
 pub fn val_parse(s: &str) -> Valuation {
@@ -46,15 +47,19 @@ pub fn val_parse(s: &str) -> Valuation {
         "dyadic" => Valuation::Dyadic,
         "tiny" => Valuation::Tiny,
         "dup" => Valuation::Dup,
+        "sub" => Valuation::Sub,
         _ => Valuation::Generic,
     }
 }
 
-fn cmp(lib: &[f32], reff: &[f64], tol: f64) -> Result<bool, String> {
+/// `floor`: the tolerance is relative to max(max|reference|, floor); the floor is the largest magnitude that has flowed
+/// through the network so far (inputs and earlier activations), at most 1 - so that data of scale 1e-6 or 1e-42 is
+/// judged at its own scale, while a layer whose outputs cancel to near zero is judged at the scale of its operands
+fn cmp(lib: &[f32], reff: &[f64], tol: f64, floor: f64) -> Result<bool, String> {
     if lib.len() != reff.len() {
         return Err(format!("{} elements, reference has {}", lib.len(), reff.len()));
     }
-    let scale = reff.iter().fold(1.0f64, |m, v| m.max(v.abs()));
+    let scale = reff.iter().fold(floor.min(1.0), |m, v| m.max(v.abs()));
     let mut exact = true;
     for i in 0..lib.len() {
         if !lib[i].is_finite() {
@@ -62,7 +67,8 @@ fn cmp(lib: &[f32], reff: &[f64], tol: f64) -> Result<bool, String> {
         }
         if (lib[i] as f64) != reff[i] {
             exact = false;
-            if (lib[i] as f64 - reff[i]).abs() > tol * scale {
+            // 64 quanta of gradual underflow (2^-149 each): below 2^-126 rounding is absolute, not relative
+            if (lib[i] as f64 - reff[i]).abs() > tol * scale + 64.0 * 1.401298464324817e-45 {
                 return Err(format!("element {}: {:e}, reference {:e}", i, lib[i], reff[i]));
             }
         }
@@ -151,9 +157,15 @@ pub fn check_net(net: &Net, val: Valuation, flat_in: bool, seed: u64, case: &Kv,
     let smooth = net.name().contains("leaky") || net.name().contains("sigmoid") || net.name().contains("tanh") || net.name().contains("softmax");
     let tol = if smooth { 1e-4 } else if val == Valuation::Generic { 2e-5 } else { 2e-6 };
     let mut all_exact = true;
+    let mut flow = x64.iter().fold(0.0f64, |m, v| m.max(v.abs()));
     for i in 0..net.layers.len() {
+        // operands of this layer: what flows in, and what it adds itself (biases)
+        flow = params[i].b.as_ref().map(|b| b.iter().fold(flow, |m, v| m.max(v.abs() as f64))).unwrap_or(flow);
+        if matches!(net.layers[i], L::Fb { .. }) {
+            flow = flow.max(1.0);
+        }
         if !matches!(net.layers[i], L::Fb { .. }) {
-            match cmp(&run.pre[i].1, &tr.layers[i].pre, tol) {
+            match cmp(&run.pre[i].1, &tr.layers[i].pre, tol, flow) {
                 Ok(e) => all_exact &= e,
                 Err(e) => {
                     rep.violate(layer_key(net, &shapes, i, flat_in, "pre-activation"), format!("{} layer {}: {}", net.name(), i, e), case);
@@ -161,7 +173,9 @@ pub fn check_net(net: &Net, val: Valuation, flat_in: bool, seed: u64, case: &Kv,
                 }
             }
         }
-        match cmp(&run.post[i + 1].1, &tr.activated[i + 1], tol) {
+        let r = cmp(&run.post[i + 1].1, &tr.activated[i + 1], tol, flow);
+        flow = tr.activated[i + 1].iter().fold(flow, |m, v| m.max(v.abs()));
+        match r {
             Ok(e) => all_exact &= e,
             Err(e) => {
                 rep.violate(layer_key(net, &shapes, i, flat_in, "output"), format!("{} layer {}: {}", net.name(), i, e), case);
@@ -269,7 +283,7 @@ pub fn cases(ctx: &Ctx) -> Vec<Kv> {
             if lattice_point(kind, &ix, Act::Linear).is_none() {
                 continue;
             }
-            for val in ["dup", "generic"] {
+            for val in ["dup", "generic", "sub"] {
                 out.push(Kv::new().put("kind", "lattice").put("layer", kind_name(kind)).put("ix", ixs(&ix)).put("act", if ix.iter().sum::<usize>() % 2 == 0 { "linear" } else { "relu" }).put("val", val).put("flat", (ix.iter().sum::<usize>() % 2) as u8));
             }
         }
@@ -315,7 +329,7 @@ pub fn cases(ctx: &Ctx) -> Vec<Kv> {
         for n_out in 1..=4usize {
             for act in [Act::Linear, Act::Relu, Act::Leaky, Act::Sigmoid, Act::Tanh, Act::Softmax] {
                 for bias in [true, false] {
-                    for val in ["ints", "dyadic"] {
+                    for val in ["ints", "dyadic", "sub"] {
                         let net = Net::new(Dims::Flat(n_in), vec![L::Dense { n: n_out, act, bias, drop: None }]);
                         out.push(Kv::new().put("kind", "net").put("net", net.name()).put("val", val).put("flat", 0));
                     }
@@ -335,6 +349,9 @@ pub fn cases(ctx: &Ctx) -> Vec<Kv> {
         }
         if out.len() % 4 == 2 {
             out.push(Kv::new().put("kind", "net").put("net", net.name()).put("val", "generic").put("flat", 0));
+        }
+        if out.len() % 4 == 3 {
+            out.push(Kv::new().put("kind", "net").put("net", net.name()).put("val", "sub").put("flat", 0));
         }
         if spatial_first {
             out.push(Kv::new().put("kind", "net").put("net", net.name()).put("val", "dyadic").put("flat", 1));
